@@ -682,3 +682,36 @@ def inclusive_closures(ctx, fi, rule, attrs=('forebears', 'downp')):
             '' if incl else ' - without the region itself: the propagation counts its own edges as coming from outside'),
             construct='closure self.%s' % a.targets[0].attr)
     return n
+
+
+def seeded_generator_scope(ctx, fi, rule):
+    """A generator seeded from an argument (`np.random.RandomState(seed)`, `default_rng(seed)`, `random.Random(seed)`) must be created ONCE per
+    call of the function that takes the seed.  Created inside a nested function or a loop it restarts with the same seed every time that code
+    runs: every column / group / round then draws the SAME stream, the draws are no longer independent of each other.  One obligation per such
+    construction that is given a (non-None) seed expression."""
+    raw = getattr(fi, 'original', fi)
+    n = 0
+
+    def visit(node, inside):
+        nonlocal n
+        for ch in ast.iter_child_nodes(node):
+            if isinstance(ch, (ast.FunctionDef, ast.Lambda)):
+                visit(ch, inside + ['the nested function `%s`' % getattr(ch, 'name', '<lambda>')])
+                continue
+            if isinstance(ch, (ast.For, ast.While)):
+                visit(ch, inside + ['a loop'])
+                continue
+            if isinstance(ch, (ast.ListComp, ast.GeneratorExp, ast.SetComp, ast.DictComp)):
+                visit(ch, inside + ['a comprehension'])
+                continue
+            if isinstance(ch, ast.Call) and U(ch.func).split('.')[-1] in ('RandomState', 'default_rng', 'Random', 'Generator') and ch.args \
+                    and not (isinstance(ch.args[0], ast.Constant) and ch.args[0].value is None):
+                seed_names = {x.id for x in ast.walk(ch.args[0]) if isinstance(x, ast.Name)}
+                if seed_names & set(raw.params):
+                    n += 1
+                    ctx.ob(rule, fi, ch, not inside, 'the generator seeded with `%s` is created %s' % (U(ch.args[0]), 'once per call' if not inside else
+                           'inside %s: it restarts from the same seed every time that code runs, so every use draws the same stream' % inside[-1]),
+                           construct='seeded generator `%s`' % U(ch)[:50])
+            visit(ch, inside)
+    visit(raw.node, [])
+    return n
